@@ -341,7 +341,7 @@ Section Sym.
     assert (Hok : Forall comp_ok cs') by (apply Forall_comp_ok_of; exact Hg).
     destruct Hpos as [->|(Hti & mid & ->)].
     - injection Hdi as <-.
-      destruct (search_rewalk h v Hos dk root nk [] tk cs' fi slm root pi' slcount saved Htk Hk Hok Hb Hdk)
+      destruct (search_rewalk h v Hos dk root nk [] tk cs' fi slm root pi' slcount saved Htk Hk Hok Hb Hdk Hrp)
         as (pi'' & Hb'' & E). cbn [app] in Hb''.
       pose proof (search_loop_mono (length dk) fi h v slm root root pi' slcount saved _ eq_refl Hnf) as Hm.
       rewrite E in Hm. rewrite <- Hm in Hnf |- *.
@@ -380,6 +380,7 @@ Section Sym.
     destruct (dwalk_end_dir _ _ _ _ _ Hw Hrd Hrp) as (Hd & Hp).
     subst K. revert Hk1 Hk2 Hnf.
     rewrite (search_loop_on h v Hos fi slm root parent pi slcount saved done todo c Hok Hb).
+    rewrite (root_check_pass h v root parent Hp).
     rewrite kwalk_S, Hd, Hp. cbn [negb andb]. cbv zeta. rewrite K1, K2.
     assert (Hat : precise_of slm = true ->
                   todo = [] -> at_name h u root parent c (out_pi (on_comp (done ++ [c]) done c) saved)).
@@ -480,7 +481,7 @@ Section Sym.
           pose proof (search_loop_mono (S (length cs')) fi h v slm root root pi2 (S slcount) saved' _ eq_refl Hnf) as Hm2.
           rewrite <- Hm2.
           rewrite <- Ecs in Hp1.
-          destruct (search_rewalk_full h v Hos cs' root p [] cs' fi slm root pi2 (S slcount) saved' eq_refl Hok' Hb2 Hp1)
+          destruct (search_rewalk_full h v Hos cs' root p [] cs' fi slm root pi2 (S slcount) saved' eq_refl Hok' Hb2 Hp1 Hrp)
             as (R1 & R2 & R3).
           cbn. change (S (length cs') + fi) with (S (length cs' + fi)).
           split; [exact R1|]. split; [exact R2|].
@@ -512,7 +513,7 @@ Section Sym.
           2:{ apply resumes_longer in Hres. rewrite Ecs in Hres. lia. }
           pose proof (search_loop_mono (S (length cs')) fi h v slm root root pi2 (S slcount) saved' _ eq_refl Hnf) as Hm2.
           rewrite <- Hm2. rewrite <- Ecs in Hw.
-          destruct (search_rewalk_full h v Hos cs' root parent [] cs' fi slm root pi2 (S slcount) saved' eq_refl Hok' Hb2 Hw)
+          destruct (search_rewalk_full h v Hos cs' root parent [] cs' fi slm root pi2 (S slcount) saved' eq_refl Hok' Hb2 Hw Hrp)
             as (R1 & R2 & R3).
           cbn. change (S (length cs') + fi) with (S (length cs' + fi)).
           split; [exact R1|]. split; [exact R2|]. split; [apply node_is_dir_valid; exact Hd|].
@@ -535,39 +536,45 @@ End Sym.
 Definition follow_of (slm : slmode) : bool := negb (slmode_eqb slm SlLstat).
 
 Theorem sym_bridge (h : heap) (v : view) (slm : slmode) (cs : list str) (fi fk : nat) (md : bool) :
-  v_os v = Linux -> walk_wf h -> links_clean h ->
-  node_is_dir h (v_root v) = true -> kperm h (v_root v) 1 (v_user v) = true ->
+  v_os v = Linux -> walk_wf h -> links_clean h -> node_is_dir h (v_root v) = true ->
   Forall good_comp cs -> (md = false \/ cs = []) ->
   let K := kwalk fk h (v_user v) (v_root v) false (follow_of slm) (v_root v) cs 0 md in
   let r := search_loop fi h v slm (v_root v) (v_root v) (pi_new Linux (abs_path cs)) 0 None in
   K <> WErr EFUEL -> K <> WErr ELOOP -> sr_err r <> EFuel ->
   walk_rel h (v_user v) (v_root v) (precise_of slm) r K.
 Proof.
-  intros Hos Hwf Hlc Hrd Hrp Hg Hmd K r. subst K r. destruct cs as [|c cs].
+  intros Hos Hwf Hlc Hrd Hg Hmd K r. subst K r. destruct cs as [|c cs].
   - destruct fk as [|fk]; [cbn [kwalk]; congruence|]. destruct fi as [|fi]; [cbn [search_loop sr_err]; congruence|].
     intros _ _ _.
     rewrite (search_loop_end h v Hos fi slm (v_root v) (v_root v) _ 0 None [] (Forall_nil _) (pi_new_before [])).
     rewrite kwalk_S. cbn [walk_rel sr_err sr_child sr_parent]. split; [reflexivity|]. split; [reflexivity|].
     split; [apply node_is_dir_valid; exact Hrd|]. split; [eauto|]. intros [=].
-  - destruct Hmd as [->|Hmd]; [|discriminate]. intros Hk1 Hk2 Hnf.
-    apply (sym_bridge_at h v Hos Hwf Hlc Hrd Hrp slm fk fi [] (c :: cs) (v_root v) _ 0 None _); auto.
-    + discriminate.
-    + apply pi_new_before.
-    + unfold MAXSYMLINKS. lia.
+  - destruct Hmd as [->|Hmd]; [|discriminate]. destruct (kperm h (v_root v) 1 (v_user v)) eqn:Hrp.
+    + intros Hk1 Hk2 Hnf.
+      apply (sym_bridge_at h v Hos Hwf Hlc Hrd Hrp slm fk fi [] (c :: cs) (v_root v) _ 0 None _); auto.
+      * discriminate.
+      * apply pi_new_before.
+      * unfold MAXSYMLINKS. lia.
+    + (* the caller may not search the root: both walks stop at once *)
+      destruct fk as [|fk]; [cbn [kwalk]; congruence|]. destruct fi as [|fi]; [cbn [search_loop sr_err]; congruence|].
+      intros _ _ _.
+      assert (Hok : Forall comp_ok (c :: cs)) by (apply Forall_comp_ok_of; exact Hg).
+      rewrite (search_loop_on h v Hos fi slm (v_root v) (v_root v) _ 0 None [] cs c Hok (pi_new_before (c :: cs))). cbv zeta.
+      rewrite root_check_kperm, Nat.eqb_refl, Hrp. rewrite kwalk_S, Hrd, Hrp. cbn.
+      split; [|intros _ [=]]. right. split; [auto|reflexivity].
 Qed.
 
 Theorem sym_bridge_lookup (s : fsys) (sv : sview) (slm : slmode) (cs : list str) :
   let v := sv_view sv in
   let h := f_heap s in
-  v_os v = Linux -> walk_wf h -> links_clean h ->
-  node_is_dir h (v_root v) = true -> kperm h (v_root v) 1 (v_user v) = true ->
+  v_os v = Linux -> walk_wf h -> links_clean h -> node_is_dir h (v_root v) = true ->
   Forall good_comp cs ->
   let K := klookup s sv false (follow_of slm) (abs_path cs) in
   let r := search_node s v (abs_path cs) slm in
   K <> WErr EFUEL -> K <> WErr ELOOP -> sr_err r <> EFuel ->
   walk_rel h (v_user v) (v_root v) (precise_of slm) r K.
 Proof.
-  intros v h Hos Hwf Hlc Hrd Hrp Hg K r. subst K r.
+  intros v h Hos Hwf Hlc Hrd Hg K r. subst K r.
   rewrite (search_node_abs_path s v cs slm Hos Hg), (klookup_abs_path s sv false (follow_of slm) cs Hg).
   apply sym_bridge; auto. destruct cs; [right; reflexivity|left; reflexivity].
 Qed.
@@ -725,7 +732,6 @@ Module WalkSymNonVacuity.
     - reflexivity.
     - exact tree_wf.
     - exact tree_links_clean.
-    - reflexivity.
     - reflexivity.
     - repeat constructor; try discriminate; intros x [<-|[]]; discriminate.
     - vm_compute; discriminate.
